@@ -38,7 +38,7 @@ Proof.
       cbn [rev]. rewrite <- app_assoc. cbn [app].
       assert (L : Z.to_nat (zlen rp) = length (rev rp)) by (unfold zlen; rewrite rev_length; lia).
       unfold zidx, ztake, zdrop. rewrite L, nth_middle.
-      replace (Z.to_nat (zlen rp + 1)) with (length (rev rp ++ [b])) by (rewrite app_length; cbn; lia).
+      replace (Z.to_nat (zlen rp + 1)) with (length (rev rp ++ [b])) by (unfold zlen; rewrite app_length, rev_length; cbn [length]; lia).
       cbn [trim_z].
       destruct (b <? 128)%N.
       * change (rev rp ++ b :: post) with (rev rp ++ [b] ++ post). rewrite app_assoc, firstn_app_len.
@@ -82,12 +82,14 @@ Proof.
 Qed.
 
 (* locality: only the last 3 bytes matter *)
+Lemma trim_z_0 : forall r p, trim_z 0 r p = rev r ++ p.
+Proof. destruct r; reflexivity. Qed.
+
 Lemma trim_z_extra : forall n rpre post extra, (n <= length rpre)%nat ->
   trim_z n (rpre ++ extra) post = rev extra ++ trim_z n rpre post.
 Proof.
   induction n as [|n IH]; intros rpre post extra H.
-  - cbn. destruct (rpre ++ extra) eqn:E; destruct rpre eqn:E'; rewrite <- ?E, <- ?E';
-      rewrite ?rev_app_distr, <- ?app_assoc; reflexivity.
+  - rewrite !trim_z_0, rev_app_distr, <- app_assoc. reflexivity.
   - destruct rpre as [|b rp]; [cbn in H; lia|]. cbn [app trim_z]. cbn [length] in H.
     destruct (b <? 128)%N; [cbn [rev]; now rewrite rev_app_distr, <- app_assoc|].
     destruct (rune_start b).
@@ -193,11 +195,14 @@ Inductive enc_shape : list N -> Prop :=
 
 Lemma wf_enc_shape : forall e, wf_enc e = true -> enc_shape e.
 Proof.
-  intros e H. destruct e as [|a [|b [|c [|d [|x t]]]]]; cbn in H; try discriminate.
+  intros e H. destruct e as [|a [|b [|c [|d [|x t]]]]]; cbn [wf_enc] in H; try discriminate.
   - now constructor.
   - apply andb_true_iff in H. destruct H. now constructor.
-  - repeat (apply andb_true_iff in H; destruct H as [H ?]). now constructor.
-  - repeat (apply andb_true_iff in H; destruct H as [H ?]). now constructor.
+  - apply andb_true_iff in H. destruct H as [H K]. apply andb_true_iff in H. destruct H as [H C].
+    apply andb_true_iff in H. destruct H as [A B]. now constructor.
+  - apply andb_true_iff in H. destruct H as [H K]. apply andb_true_iff in H. destruct H as [H D].
+    apply andb_true_iff in H. destruct H as [H C]. apply andb_true_iff in H. destruct H as [A B].
+    now constructor.
 Qed.
 
 Lemma wf_enc_nonempty : forall e, wf_enc e = true -> e <> [].
@@ -226,11 +231,11 @@ Proof.
   destruct He as [a Ha|a b Ha Hb|a b c Ha Hb Hc Hk|a b c d Ha Hb Hc Hd]; cbn [rev app trim_z].
   - rewrite Ha. cbn [rev]. now rewrite rev_involutive.
   - destruct (cont_class b Hb) as [B1 B2]. rewrite B1, B2.
-    destruct (lead_class a (rng_widen _ _ 194 244 _ ltac:(lia) ltac:(lia) Ha)) as (A1 & A2 & _).
+    destruct (lead_class a ltac:(eapply rng_widen; [ | | exact Ha]; lia)) as (A1 & A2 & _).
     rewrite A1, A2. pose proof (dec2_ok a b Ha Hb) as D. unfold isErr in D. rewrite D.
     cbn [rev]. rewrite rev_involutive, <- app_assoc. reflexivity.
   - destruct (cont_class b Hb) as [B1 B2]. destruct (cont_class c Hc) as [C1 C2]. rewrite C1, C2, B1, B2.
-    destruct (lead_class a (rng_widen _ _ 194 244 _ ltac:(lia) ltac:(lia) Ha)) as (A1 & A2 & _).
+    destruct (lead_class a ltac:(eapply rng_widen; [ | | exact Ha]; lia)) as (A1 & A2 & _).
     rewrite A1, A2. pose proof (dec3_ok a b c Ha Hb Hc Hk) as D. unfold isErr in D. rewrite D.
     cbn [rev]. rewrite rev_involutive, <- app_assoc. reflexivity.
   - destruct (cont_class b Hb) as [B1 B2]. destruct (cont_class c Hc) as [C1 C2].
@@ -247,27 +252,28 @@ Proof.
   intros w t (Ht & t' & Ht' & He). rewrite trim_is_z, rev_app_distr. apply wf_enc_shape in He.
   remember (t ++ t') as e eqn:E. destruct He as [a Ha|a b Ha Hb|a b c Ha Hb Hc Hk|a b c d Ha Hb Hc Hd].
   - destruct t as [|x [|y t0]]; try congruence; cbn in E; inversion E; destruct t'; try congruence; discriminate.
-  - destruct t as [|x [|y t0]]; try congruence; cbn in E; inversion E; subst.
-    + destruct (lead_class a (rng_widen _ _ 194 244 _ ltac:(lia) ltac:(lia) Ha)) as (A1 & A2 & A3).
-      cbn [rev app trim_z]. unfold isErr in A3. rewrite A1, A2, A3. apply rev_involutive.
+  - destruct (lead_class a ltac:(eapply rng_widen; [ | | exact Ha]; lia)) as (A1 & A2 & A3).
+    unfold isErr in A3.
+    destruct t as [|x [|y t0]]; try congruence; cbn in E; inversion E; subst.
+    + cbn [rev app trim_z]. rewrite A1, A2, A3. apply rev_involutive.
     + destruct t0; destruct t'; try congruence; discriminate.
-  - destruct (lead_class a (rng_widen _ _ 194 244 _ ltac:(lia) ltac:(lia) Ha)) as (A1 & A2 & A3).
+  - destruct (lead_class a ltac:(eapply rng_widen; [ | | exact Ha]; lia)) as (A1 & A2 & A3).
     destruct (cont_class b Hb) as [B1 B2].
+    pose proof (part2_err a b ltac:(eapply rng_widen; [ | | exact Ha]; lia) Hb) as P.
+    unfold isErr in A3, P.
     destruct t as [|x [|y [|z t0]]]; try congruence; cbn in E; inversion E; subst.
-    + cbn [rev app trim_z]. unfold isErr in A3. rewrite A1, A2, A3. apply rev_involutive.
-    + cbn [rev app trim_z]. rewrite B1, B2, A1, A2.
-      pose proof (part2_err a b (rng_widen _ _ 224 244 _ ltac:(lia) ltac:(lia) Ha) Hb) as P.
-      unfold isErr in P. rewrite P. apply rev_involutive.
+    + cbn [rev app trim_z]. rewrite A1, A2, A3. apply rev_involutive.
+    + cbn [rev app trim_z]. rewrite B1, B2, A1, A2, P. apply rev_involutive.
     + destruct t0; destruct t'; try congruence; discriminate.
-  - destruct (lead_class a (rng_widen _ _ 194 244 _ ltac:(lia) ltac:(lia) Ha)) as (A1 & A2 & A3).
+  - destruct (lead_class a ltac:(eapply rng_widen; [ | | exact Ha]; lia)) as (A1 & A2 & A3).
     destruct (cont_class b Hb) as [B1 B2]. destruct (cont_class c Hc) as [C1 C2].
+    pose proof (part2_err a b ltac:(eapply rng_widen; [ | | exact Ha]; lia) Hb) as P.
+    pose proof (part3_err a b c Ha Hb Hc) as P3.
+    unfold isErr in A3, P, P3.
     destruct t as [|x [|y [|z [|u t0]]]]; try congruence; cbn in E; inversion E; subst.
-    + cbn [rev app trim_z]. unfold isErr in A3. rewrite A1, A2, A3. apply rev_involutive.
-    + cbn [rev app trim_z]. rewrite B1, B2, A1, A2.
-      pose proof (part2_err a b (rng_widen _ _ 224 244 _ ltac:(lia) ltac:(lia) Ha) Hb) as P.
-      unfold isErr in P. rewrite P. apply rev_involutive.
-    + cbn [rev app trim_z]. rewrite C1, C2, B1, B2, A1, A2.
-      pose proof (part3_err a b c Ha Hb Hc) as P. unfold isErr in P. rewrite P. apply rev_involutive.
+    + cbn [rev app trim_z]. rewrite A1, A2, A3. apply rev_involutive.
+    + cbn [rev app trim_z]. rewrite B1, B2, A1, A2, P. apply rev_involutive.
+    + cbn [rev app trim_z]. rewrite C1, C2, B1, B2, A1, A2, P3. apply rev_involutive.
     + destruct t0; destruct t'; try congruence; discriminate.
 Qed.
 
@@ -280,14 +286,16 @@ Lemma utf8_cut : forall s, utf8 s -> forall n, (n <= length s)%nat ->
     ((t = []) \/ (cut_enc t /\ exists t' rest, rem = t' ++ rest /\ t' <> [] /\ wf_enc (t ++ t') = true /\ utf8 rest)).
 Proof.
   intros s H. induction H as [|e s He Hs IH]; intros n Hn.
-  - cbn in Hn. exists [], [], []. repeat split; try constructor. lia. now left.
+  - assert (n = 0)%nat by (cbn [length] in Hn; lia). subst. exists [], [], [].
+    split; [reflexivity|]. split; [reflexivity|]. split; [constructor|]. split; [constructor|]. now left.
   - rewrite app_length in Hn. destruct (Nat.le_gt_cases (length e) n) as [L|L].
     + destruct (IH (n - length e)%nat ltac:(lia)) as (w & t & rem & -> & Hl & Hw & Htr & Hc).
       exists (e ++ w), t, rem. rewrite <- app_assoc. repeat split; try assumption.
       * rewrite app_length. lia.
       * apply utf8_app2; [now apply utf8_one|assumption].
     + destruct n as [|n].
-      * exists [], [], (e ++ s). repeat split; try constructor; try assumption. now left.
+      * exists [], [], (e ++ s). split; [reflexivity|]. split; [reflexivity|]. split; [constructor|].
+        split; [cbn [app]; now constructor|]. now left.
       * exists [], (firstn (S n) e), (skipn (S n) e ++ s).
         assert (E : e = firstn (S n) e ++ skipn (S n) e) by (symmetry; apply firstn_skipn).
         repeat split.
